@@ -175,6 +175,14 @@ class Arr:
         return self._sel(i)
 
     def __setitem__(self, i, v):
+        if isinstance(i, Arr):
+            # assignment through an index array happens element by element in order: for a repeated index the last value wins
+            vs = list(v.data) if isinstance(v, Arr) else [v] * len(i.data)
+            if len(vs) != len(i.data):
+                raise ValueError('shape mismatch: value array cannot be broadcast to indexing result')
+            for j, x in zip(i.data, vs):
+                self[j] = x
+            return
         if isinstance(i, slice):
             vs = list(v.data if isinstance(v, Arr) else v)
             start, stop, step = i.indices(len(self.data))
